@@ -51,9 +51,17 @@ def analyse(src: Source) -> List[Report]:
     rep.extra["transitions"] = transitions
     rep.exhaustive = True
     check_activator(prog, rep)
+    # the run loops keep the order commit -> trash -> mediating step -> create: a mediating step (dump, sample) that runs while the
+    # committed handler is still filed as running sees / pickles a scheduler and an activator that a fresh start would not produce
+    from ..mediator_rules import check_run_loops
+    check_run_loops(prog, rep, "R9.6")
     # cell-based taggers generate their in-states from the occupancy: a unit filed in the wrong list is a missing factor
     from ..cell_rules import check_occupancy
     check_occupancy(prog, rep)
+    # ... and a cell-based tagger that skips a cell family (own cell, nearby cells, surplus) creates fewer candidates than the
+    # factors that involve the active unit: the tagger algebra of C10
+    from .c10 import check_tagger_algebra
+    check_tagger_algebra(prog, rep)
     # "in flight" is what the scheduler still holds as live: an event trashed by the activator must be dead in the scheduler and
     # stay dead (lazy-deletion counters, also across counter overflow and a dump / resume) -- the scheduler half of the protocol,
     # shared with C06
